@@ -94,6 +94,20 @@ def server_cases(tier):
         for val in VALUES.get(n, []):
             cases.append(("set:%s=%r" % (n, val), build_request(REQUEST_LINES[0],
                                                                 BASE[:i] + [(n, val)] + BASE[i + 1:])))
+    # list-valued headers spread over two lines (RFC 7230 3.2.2: same as one comma-separated line)
+    def without(name):
+        return [(n, v) for n, v in BASE if n != name]
+    for name, needed, other in (("Connection", b"Upgrade", b"keep-alive"), ("Upgrade", b"websocket", b"h2c"),
+                                ("Sec-WebSocket-Protocol", b"chat", b"superchat")):
+        if name == "Sec-WebSocket-Protocol" and not any(n == name for n, _ in BASE):
+            rest = list(BASE)
+        else:
+            rest = without(name)
+        for first, second in ((needed, other), (other, needed)):
+            cases.append(("two-lines:%s=%s|%s" % (name, first.decode(), second.decode()),
+                          build_request(REQUEST_LINES[0], rest + [(name, first), (name, second)])))
+            cases.append(("two-lines-apart:%s=%s|%s" % (name, first.decode(), second.decode()),
+                          build_request(REQUEST_LINES[0], [(name, first)] + rest + [(name, second)])))
     # values with characters that are special to text templating (str.format braces, % directives):
     # whatever is echoed into logs or error pages must not be interpreted
     for i, (n, v) in enumerate(BASE):
@@ -391,6 +405,11 @@ def client_cases(key, tier):
             cases.append(("set:%s=%r" % (n, val), build(ok, base[:i] + [(n, val)] + base[i + 1:])))
     for h in [("Sec-WebSocket-Protocol", b"chat"), ("Sec-WebSocket-Protocol", b"notrequested"),
               ("Sec-WebSocket-Protocol", b"chat, superchat"), ("Sec-WebSocket-Protocol", b""),
+              # fragments and concatenations of what a client offering chat + superchat has sent
+              ("Sec-WebSocket-Protocol", b"chat,superchat"), ("Sec-WebSocket-Protocol", b"cha"),
+              ("Sec-WebSocket-Protocol", b"hat"), ("Sec-WebSocket-Protocol", b"super"),
+              ("Sec-WebSocket-Protocol", b"c"), ("Sec-WebSocket-Protocol", b"t,s"),
+              ("Sec-WebSocket-Protocol", b"superchat"), ("Sec-WebSocket-Protocol", b"Chat"),
               ("Sec-WebSocket-Extensions", b"permessage-deflate"), ("Sec-WebSocket-Extensions", b"foo"),
               ("Sec-WebSocket-Extensions", b"permessage-deflate, permessage-deflate"),
               ("X-Bin", b"\xff\xfe"), ("X-Utf8", "é".encode("utf8")), ("No-Colon", None),
